@@ -41,6 +41,7 @@ type Summary struct {
 	NTHashes    []uint64          `json:"nt_hashes"`
 	StateHashes []uint64          `json:"state_hashes"`
 	Hazards     int               `json:"hazards"`
+	HazardRuns  []int             `json:"hazard_runs,omitempty"`
 	Samples     []json.RawMessage `json:"samples"`
 	Failures    []Failure         `json:"failures,omitempty"`
 	Classes     map[string]int    `json:"classes"`
@@ -176,6 +177,9 @@ func TestWorker(t *testing.T) {
 		sum.Steps += out.Steps
 		sum.SimMs += out.SimMs
 		sum.Hazards += out.Hazards
+		if out.Hazards > 0 && len(sum.HazardRuns) < 5 {
+			sum.HazardRuns = append(sum.HazardRuns, idx)
+		}
 		sum.Ops += out.Ops
 		for k, v := range out.Probes {
 			sum.Probes[k] += v
@@ -238,7 +242,7 @@ func TestWorker(t *testing.T) {
 		os.Setenv("VERIF_TRACE", "1")
 		out := Execute(t, p, rf.Scenario)
 		res := map[string]interface{}{"violations": out.Violations, "hash": out.Hash, "expected_hash": rf.Hash,
-			"expected_rule": rf.Violation.Rule, "infra": out.Infra, "trace": out.Trace}
+			"expected_rule": rf.Violation.Rule, "infra": out.Infra, "trace": out.Trace, "hazards": out.HazardNames}
 		b, _ = json.MarshalIndent(res, "", " ")
 		if outPath != "" {
 			os.WriteFile(outPath, b, 0o644)
